@@ -22,6 +22,15 @@ def followed_by_label(tier):
             head = [("config", "BITS", ("num", 32))] if mode == 32 else []
             prog = head + [("mn", "ORG", [A.hexn(0x7c00)]), st, ("label", "after"), ("mn", "DW" if mode == 16 else "DD", [A.ident("after")])]
             out.append((prog, dict(tags, kind="stmt+label"), mode, st))
+    # every no-operand mnemonic followed by a label: pass 1 counts one byte for each of them
+    reg = json.load(open(os.path.join(lib.BUILD, "registry.json")))
+    for name, h in sorted(reg["handler"].items()):
+        if h == "processNoParam" and name in reg["opcodes"]:
+            for mode in (16, 32):
+                head = [("config", "BITS", ("num", 32))] if mode == 32 else []
+                st = ("op", name)
+                prog = head + [("mn", "ORG", [A.hexn(0x7c00)]), st, ("label", "after"), ("mn", "DW" if mode == 16 else "DD", [A.ident("after")])]
+                out.append((prog, {"kind": "stmt+label", "form": "noparam"}, mode, st))
     # far jumps (ptr16:16/32), with and without a size keyword: outside the walker's decoder, judged by the tail-label rule
     for mode in (16, 32):
         head = [("config", "BITS", ("num", 32))] if mode == 32 else []
@@ -135,7 +144,7 @@ def run(v, tier, rng):
         got = int.from_bytes(bytes(img[-w:]), "little")
         want = (0x7c00 + len(img) - w) % (1 << (8 * w))
         if got != want:
-            cl = size_class(tags, mode, st, p)
+            cl = size_class(tags, mode, st, p) if tags.get("form") != "noparam" else None
             wt = {"source": cases[i]["srcs"][0], "label_value_embedded": got, "real_offset_of_label": want, "image": res[str(i)]["calls"][0]["out"][:200]}
             if cl:
                 v.finding(cl, wt)
@@ -147,7 +156,10 @@ def run(v, tier, rng):
         i = idx[k]
         p, tags, mode, st = allp[i]
         c = code % 100
-        if c in (2, 7) or (tags.get("form") == "far jmp" and c == 1):       # ptr16:32 is not in the walker's decoder: judged by the tail-label rule
+        if c in (2, 7) or tags.get("form") == "noparam":       # which byte(s) they are is C01's business (table finding): here only the tail-label rule judges them
+            byclass["outside"] = byclass.get("outside", 0) + 1
+            continue
+        if (tags.get("form") == "far jmp" and c == 1):       # ptr16:32 is not in the walker's decoder: judged by the tail-label rule
             byclass["outside"] = byclass.get("outside", 0) + 1
             continue
         w = {"source": cases[i]["srcs"][0], "statement_index": code // 100, "code": c, "why": why.get(c), "image": res[str(i)]["calls"][0]["out"][:400]}
